@@ -187,10 +187,13 @@ type scenario struct {
 	BP    bool   `json:"backpressure"`
 	Drain uint32 `json:"drain_after_op_bits"` // lossy only: bit i set = consumer drains (and oracles run) after Ops[i]
 	Mask  int    `json:"read_mask_kind"`
+	// FoldIDs: the collection has an id interceptor (strings.ToLower) and every write spells the id in upper case;
+	// predicates, events and List deal in the stored (lower case) id.
+	FoldIDs bool `json:"id_interceptor_lowercase,omitempty"`
 }
 
 func (sc scenario) desc() string {
-	return fmt.Sprintf("p=%02x bp=%v sub=%d drain=%x mask=%d ops=%s", sc.Pred, sc.BP, sc.SubAt, sc.Drain, sc.Mask, opsString(sc.Ops))
+	return fmt.Sprintf("p=%02x bp=%v sub=%d drain=%x mask=%d fold-ids=%v ops=%s", sc.Pred, sc.BP, sc.SubAt, sc.Drain, sc.Mask, sc.FoldIDs, opsString(sc.Ops))
 }
 
 func (sc scenario) mode() string {
@@ -277,7 +280,12 @@ func (g *generic) runScenario(sc scenario) {
 		r.Count("read-mask-runs/drops-predicate-field", 1)
 	}
 	x := &exec{g: g, r: r, sc: sc, model: map[string]*val{}}
-	x.col = resource.NewCollection()
+	if sc.FoldIDs {
+		r.Count("runs/id-interceptor", 1)
+		x.col = resource.NewCollection(resource.WithIDInterceptor(strings.ToLower))
+	} else {
+		x.col = resource.NewCollection()
+	}
 	x.readOpts = []resource.ReadOption{resource.WithInclude(g.predFn(sc.Pred))}
 	if sc.Mask != 0 {
 		x.readOpts = append(x.readOpts, resource.WithReadMask(&fieldmaskpb.FieldMask{Paths: maskPaths[sc.Mask]}))
@@ -371,15 +379,19 @@ func (x *exec) write(o op) *expect {
 	before := x.model[id]
 	e := &expect{op: o, id: id, old: before}
 	var err error
+	callID := id
+	if x.sc.FoldIDs {
+		callID = strings.ToUpper(id)
+	}
 	switch o.Kind {
 	case kAdd, kUpdate:
 		x.seq++
 		nv := &val{tag: int32(o.Val + 1), seq: x.seq}
 		if o.Kind == kAdd {
-			_, err = x.col.Add(id, mkMsg(id, nv))
+			_, err = x.col.Add(callID, mkMsg(id, nv))
 			e.failed = before != nil
 		} else {
-			_, err = x.col.Update(id, mkMsg(id, nv))
+			_, err = x.col.Update(callID, mkMsg(id, nv))
 			e.failed = before == nil
 		}
 		if !e.failed {
@@ -387,7 +399,7 @@ func (x *exec) write(o op) *expect {
 			e.new = nv
 		}
 	case kDelete:
-		_, err = x.col.Delete(id)
+		_, err = x.col.Delete(callID)
 		e.failed = before == nil
 		if !e.failed {
 			delete(x.model, id)
@@ -718,6 +730,7 @@ func (g *generic) tablePhase() {
 						if rng.Chance(1, 4) {
 							sc.Mask = 1 + rng.Intn(2)
 						}
+						sc.FoldIDs = rng.Chance(1, 4)
 						g.runScenario(sc)
 						g.r.Count("table-cells", 1)
 					}
@@ -750,6 +763,7 @@ func (g *generic) derive(sc *scenario, rng *vk.Rand) {
 	} else {
 		sc.Drain = 0
 	}
+	sc.FoldIDs = rng.Chance(1, 4)
 }
 
 func (g *generic) historyPhase() {
